@@ -27,7 +27,8 @@ Obligations (prefix write_column[v1|v2].):
   colmeta.{total_compressed_size_is_chunk_bytes, total_uncompressed_size_is_headers_plus_plain, num_values_is_len_data0_is_sum_of_pages,
            data_page_offset_is_first_data_page_header, dictionary_page_offset_iff_dictionary_page, encodings_are_the_page_encodings,
            encoding_stats_counts_and_encodings, encoding_stats_page_type}     chunk.file_offset_is_column_chunk_start
-  statistics.null_count_is_missing_cells
+  statistics.null_count_is_missing_cells   statistics.{max,min}_is_plain_encoding_of_column_{max,min}   statistics.max_and_min_both_present_or_both_absent
+  definition_block_form_matches_page_version   (call site of make_definitions; cut: C11 deflevels.block_is_spec[v1|v2])
   page.payload_codec_is_colmeta_codec, data_page_v2.values_codec_is_colmeta_codec_iff_is_compressed  (+ "[compression is not a dict lacking 'type']")
      posed over (page of an arbitrary iteration, exit state) pairs: both sides only depend on the loop-invariant `compression` argument
 make_row_group.{chunk_written_from_the_column_named_by_its_schema_element, empty_frame_returns_None_without_writing, nonempty_frame_returns_a_row_group, rg.num_rows_is_len_data,
@@ -95,10 +96,12 @@ class BL:
     """byte string: stored length n, plain length, segments [(n, plain, codec id)] (codec 0 = stored as is)"""
     tracked = True
 
-    def __init__(self, n, plain=None, segs=None):
+    def __init__(self, n, plain=None, segs=None, prov=None, leaves=None):
         self.n = n if z3.is_expr(n) else z3.IntVal(n)
         self.plain = self.n if plain is None else plain
         self.segs = [(self.n, self.plain, z3.IntVal(0))] if segs is None else segs
+        self.prov = prov                    # where the VALUE comes from (statistics provenance), None = not tracked
+        self.leaves = [self] if leaves is None else leaves      # the byte strings this one was concatenated from
 
     @staticmethod
     def opaque(p, base="len_bytes"):
@@ -107,7 +110,7 @@ class BL:
         return BL(n)
 
     def cat(self, o):
-        return BL(z3.simplify(self.n + o.n), z3.simplify(self.plain + o.plain), self.segs + o.segs)
+        return BL(z3.simplify(self.n + o.n), z3.simplify(self.plain + o.plain), self.segs + o.segs, leaves=self.leaves + o.leaves)
 
     def is_raw(self):
         return all(z3.is_int_value(z3.simplify(c)) and z3.simplify(c).as_long() == 0 for _, _, c in self.segs)
@@ -128,7 +131,7 @@ class BL:
                 raise Unsupported("bytes.join of " + type(parts).__name__)
             if not z3.is_true(z3.simplify(self.n == 0)) and len(parts.items) > 1:
                 raise Unsupported("join with a non-empty separator")
-            r = BL(0, segs=[])
+            r = BL(0, segs=[], leaves=[])
             for it in parts.items:
                 if not (isinstance(it, Custom) and isinstance(it.h, BL)):
                     raise Unsupported("bytes.join over " + type(it).__name__)
@@ -149,10 +152,14 @@ class BL:
     def slice(self, eng, p, lo, hi, node):
         if not self.is_raw():
             raise Unsupported("slice of compressed bytes")
-        a = eng.as_int(lo) if lo is not None else z3.IntVal(0)
-        if hi is not None or not z3.is_int_value(z3.simplify(a)) or z3.simplify(a).as_long() < 0:
+        a = z3.simplify(eng.as_int(lo)) if lo is not None else z3.IntVal(0)
+        b = z3.simplify(eng.as_int(hi)) if hi is not None else None
+        if not z3.is_int_value(a) or a.as_long() < 0 or (b is not None and (not z3.is_int_value(b) or b.as_long() < 0)):
             raise Unsupported("bytes slice shape")
-        return Custom(BL(z3.simplify(z3.If(self.n - a > 0, self.n - a, 0))))
+        end = self.n if b is None else z3.If(self.n < b, self.n, b)
+        # the result is a DIFFERENT value: its provenance says which slice of what
+        return Custom(BL(z3.simplify(z3.If(end - a > 0, end - a, 0)),
+                         prov=("slice", a.as_long(), None if b is None else b.as_long(), self.prov)))
 
 
 def bl_of(v, what):
@@ -357,7 +364,12 @@ class Series:
     def call_method(self, eng, p, name, args, kw, node):
         if name == "count" and not args and not self.nonnull:
             return [(p, PyI(self.b - self.a - self.nulls()))]
-        if name in ("unique", "max", "min", "astype", "notnull", "isna"):
+        whole = self is self.W.data0
+        if name in ("max", "min") and not args:
+            return [(p, Custom(ColExtreme(name, ())) if whole else Custom(Processed((name, "of a page slice"))))]
+        if name == "unique" and not args and whole:
+            return [(p, Custom(SerChain(("unique",))))]
+        if name in ("unique", "astype", "notnull", "isna"):
             return [(p, Opaque(("series." + name, next(eng.counter))))]
         raise Unsupported("Series." + name)
 
@@ -373,8 +385,18 @@ class ILoc:
 
     def slice(self, eng, p, lo, hi, node):
         s = self.s
-        if lo is None or hi is None or s.nonnull:
+        if s.nonnull:
             raise Unsupported("iloc slice shape")
+        if lo is None or hi is None:
+            # x.iloc[:k] / x.iloc[k:]: clamped like every Python slice; some part of the series, not the series
+            n = s.b - s.a
+            a = z3.IntVal(0) if lo is None else eng.as_int(lo)
+            b = n if hi is None else eng.as_int(hi)
+            a, b = z3.If(a < 0, 0, z3.If(a > n, n, a)), z3.If(b < 0, 0, z3.If(b > n, n, b))
+            b = z3.If(b < a, a, b)
+            a, b = z3.simplify(s.a + a), z3.simplify(s.a + b)
+            p.pc += [NULLS(a, b) >= 0, NULLS(a, b) <= b - a]
+            return Custom(Series(s.W, a, b))
         a, b = eng.as_int(lo), eng.as_int(hi)
         eng.oblige(p, f"{eng.cur_func}.iloc_slice_within_series@L{node.lineno}", "safety",
                    z3.And(s.a <= s.a + a, a <= b, s.a + b <= s.b, a >= 0), node, note="page slice 0 <= a <= b <= len(data0)")
@@ -431,6 +453,117 @@ class Codes:
         return [(p, Opaque(("codes." + name, next(eng.counter))))]
 
 
+class ColExtreme:
+    """X.max() / X.min() of the whole column: X = data0 or data0.unique().as_ordered()"""
+    tracked = False
+
+    def __init__(self, which, chain):
+        self.which, self.chain = which, chain
+
+    def attr(self, eng, p, name):
+        return Opaque(("extreme", self.which, self.chain, name))
+
+    def slice(self, eng, p, lo, hi, node):
+        return Custom(Processed(("slice", self)))
+
+    def call_method(self, eng, p, name, args, kw, node):
+        return [(p, Custom(Processed((name, self))))]
+
+
+class Processed:
+    """a value derived from a tracked statistics value by some further operation: a different value"""
+    tracked = False
+
+    def __init__(self, what):
+        self.what = what
+
+    def attr(self, eng, p, name):
+        return Opaque(("processed", name, next(_cnt)))
+
+    def slice(self, eng, p, lo, hi, node):
+        return Custom(Processed(("slice", self)))
+
+    def call_method(self, eng, p, name, args, kw, node):
+        return [(p, Custom(Processed((name, self))))]
+
+
+class SerChain:
+    """data0.unique() / data0.unique().as_ordered(): still the whole column"""
+    tracked = False
+
+    def __init__(self, chain):
+        self.chain = chain
+
+    def attr(self, eng, p, name):
+        return Opaque(("serchain", self.chain, name))
+
+    def call_method(self, eng, p, name, args, kw, node):
+        if name in ("max", "min") and not args:
+            return [(p, Custom(ColExtreme(name, self.chain)))]
+        if name in ("as_ordered", "unique", "dropna") and not args:
+            return [(p, Custom(SerChain(self.chain + (name,))))]
+        return [(p, Opaque(("serchain." + name, next(eng.counter))))]
+
+
+class OneFrame:
+    """pd.Series([v], ...): the one-element frame handed to the PLAIN encoder"""
+    tracked = False
+
+    def __init__(self, item):
+        self.item = item
+
+    def attr(self, eng, p, name):
+        return Opaque(("oneframe", name))
+
+
+class Phi:
+    """a variable that has different values on the prologue paths joined at the page loop: [(condition, value)]"""
+    tracked = False
+
+    def __init__(self, alts):
+        self.alts = alts
+
+    def slice(self, eng, p, lo, hi, node):
+        out = []
+        for c, v in self.alts:
+            if isinstance(v, Custom) and hasattr(v.h, "slice"):
+                out.append((c, v.h.slice(eng, p, lo, hi, node)))
+            else:
+                out.append((c, Custom(Processed(("slice", v)))))
+        return Custom(Phi(out))
+
+    def is_none(self, eng, p):
+        return z3.Or(*[z3.And(c, eng.identical(v, NONE, p)) for c, v in self.alts])
+
+
+def alternatives(v):
+    if isinstance(v, Custom) and isinstance(v.h, Phi):
+        return [(z3.And(c, c2), x) for c, w in v.h.alts for c2, x in alternatives(w)]
+    return [(z3.BoolVal(True), v)]
+
+
+class SelType:
+    tracked = False
+
+    def __init__(self, W):
+        self.W = W
+
+    def eq(self, eng, p, other):
+        if isinstance(other, Opaque) and isinstance(other.tag, tuple) and other.tag[0] == ("global:parquet_thrift", "Type"):
+            return z3.Bool("selement.type_is_" + str(other.tag[1]))
+        raise Unsupported("selement.type compared with something else than parquet_thrift.Type.X")
+
+
+class ConvType:
+    tracked = False
+
+    def __init__(self, W):
+        self.W = W
+
+    def is_none(self, eng, p):
+        return z3.Bool("selement.converted_type_is_None")
+
+
 class SElement:
     tracked = False
 
@@ -440,6 +573,10 @@ class SElement:
     def attr(self, eng, p, name):
         if name == "repetition_type":
             return Custom(RepType(self.W))
+        if name == "type":
+            return Custom(SelType(self.W))
+        if name == "converted_type":
+            return Custom(ConvType(self.W))
         return Opaque(("selement", name))
 
 
@@ -731,7 +868,10 @@ class BEngine(Engine):
             out = []
             for q, k in self.ev(fn.slice, p):
                 for r, (args, kw) in self.ev_args(e, q):
-                    out.append((r, Custom(BL.opaque(r, "len_encoded"))))
+                    b = BL.opaque(r, "len_encoded")
+                    if isinstance(k, Str) and len(args) == 2 and isinstance(args[0], Custom) and isinstance(args[0].h, OneFrame):
+                        b.prov = ("encode", k.s, args[0].h.item, isinstance(args[1], Custom) and isinstance(args[1].h, SElement))
+                    out.append((r, Custom(b)))
             return out
         # parquet_thrift.<Struct>(**fields)
         if isinstance(fn, ast.Attribute) and isinstance(fn.value, ast.Name) and fn.value.id == "parquet_thrift" \
@@ -770,6 +910,7 @@ class World:
         self.comp = Comp()
         self.fs = FS()
         self.body_paths, self.loops_seen, self.tiling = [], 0, None
+        self.data0 = Series(self, self.zero, self.n)
         self.mode, self.incoming, self.loop_stmt = "collect", [], None
         self.pre = [self.n >= 0, self.start >= 0, self.rpp >= 0, NULLS(0, 0) == 0, NULLS(0, self.n) >= 0,
                     NULLS(0, self.n) <= self.n, z3.Implies(z3.Not(self.optional), NULLS(0, self.n) == 0)] + self.comp.pre
@@ -805,7 +946,7 @@ def account(eng, p, W, S, ob, spec_page=None):
     orph = p.ghost.get("orphans", [])
     ob("every_byte_belongs_to_a_page", z3.Sum(*[b.n for b in orph]) == 0 if orph else z3.BoolVal(True),
        "no bytes are written in front of / between pages without a page header (pages tile the chunk without gaps)")
-    n_data, info = 0, []
+    n_data, info, data_pages = 0, [], []
     for pg in p.ghost.get("pages", []):
         h = pg["hdr"]
         tcode = enum_code(h.get("type"), PAGETYPE, "PageType") if h.name == "PageHeader" else None
@@ -864,12 +1005,13 @@ def account(eng, p, W, S, ob, spec_page=None):
                         ob("data_page_v2.level_lengths_describe_the_bytes", z3.BoolVal(False))
             if tcode == 0:
                 info.append(("whole", segs))
+            data_pages.append((tcode, [lf for b in pg["writes"] for lf in b.leaves], pg["writes"]))
             S["fdo"] = z3.If(S["t"] == 0, pg["off"], S["fdo"])
             S["ptype"] = z3.IntVal(tcode)
             S["penc_this"] = z3.IntVal(-1 if code is None else code)
             S["V"] = S["V"] + (nv if nv is not None else 0)
             S["t"] = S["t"] + 1
-    S["n_data_this_log"], S["pageinfo"] = n_data, info
+    S["n_data_this_log"], S["pageinfo"], S["data_pages"] = n_data, info, data_pages
     return S
 
 
@@ -1018,7 +1160,7 @@ class ZipPairs:
                 else:
                     q.env[v] = Opaque(f"havoc_{v}!{next(_cnt)}")
             W.fs.set_pos(q, fresh_int("havoc_file_pos"))
-            q.ghost["pages"], q.ghost["orphans"], q.ghost["iloc_slices"] = [], [], []
+            q.ghost["pages"], q.ghost["orphans"], q.ghost["iloc_slices"], q.ghost["defblocks"] = [], [], [], []
             q.pc += [g for _, g in invariant(eng, q, W, S, self)]
             q.ghost["sums"] = S
             return S
@@ -1064,6 +1206,18 @@ class ZipPairs:
         ob("exactly_one_data_page_per_tile", z3.BoolVal(S1["n_data_this_log"] == 1),
            "each (row_start, row_end) pair of the tiling produces exactly one data page")
         a_, b_ = page
+        gs = []
+        for block, ver in r.ghost.get("defblocks", []):
+            for tcode, leaves, writes in S1["data_pages"]:
+                pv = 2 if tcode == 3 else 1
+                written = sum(1 for lf in leaves if lf is block) == 1 and (tcode != 3 or (len(writes) >= 1 and writes[0] is block))
+                gs.append(z3.And(ver == pv, z3.BoolVal(written)))
+        if len(r.ghost.get("defblocks", [])) > 1 or (r.ghost.get("defblocks") and len(S1["data_pages"]) != 1):
+            gs.append(z3.BoolVal(False))
+        eng.oblige(r, f"{fn}.definition_block_form_matches_page_version", "post", z3.And(*gs) if gs else z3.BoolVal(True), st,
+                   "the datapage_version handed to make_definitions (which decides whether the block carries the v1 4-byte length prefix: "
+                   "deflevels.block_is_spec[v1|v2]) is the version of the page header written for this page, and that block is the "
+                   "level section of the page (v2: the bytes counted by definition_levels_byte_length)")
         sl = r.ghost.get("iloc_slices", [])
         ob("rows_are_the_tile", z3.And(z3.BoolVal(len(sl) == 1), *[z3.And(x == a_, y == b_) for x, y in sl]),
            "the rows encoded into this page are exactly data0.iloc[row_start:row_end] of the tiling")
@@ -1144,7 +1298,25 @@ def wc_handlers(W):
         d = args[0]
         if not (isinstance(d, Custom) and isinstance(d.h, Series) and not d.h.nonnull):
             raise Unsupported("make_definitions of something else than a page slice")
-        return [(p, Tup([Custom(BL.opaque(p, "len_definition_levels")), Custom(Series(W, d.h.a, d.h.b, nonnull=True))]))]
+        # which block FORM is produced is decided by the datapage_version ARGUMENT (C11: deflevels.block_is_spec[v1|v2]): length-prefixed
+        # iff it is 1; the parameter's default comes from the real signature
+        ver = args[2] if len(args) > 2 else kw.get("datapage_version")
+        if ver is None:
+            fd = eng.funcs["make_definitions"].tree.args
+            names = [x.arg for x in fd.args]
+            dflt = dict(zip(names[len(names) - len(fd.defaults):], fd.defaults)).get("datapage_version")
+            if dflt is None:
+                raise Unsupported("make_definitions has no default for datapage_version")
+            ver = eng.ev1(dflt, p)
+        block = BL.opaque(p, "len_definition_levels")
+        p.ghost["defblocks"] = p.ghost.get("defblocks", []) + [(block, eng.as_int(ver, p))]
+        return [(p, Tup([Custom(block), Custom(Series(W, d.h.a, d.h.b, nonnull=True))]))]
+
+    def h_pd_series(eng, p, args, kw, node):
+        if args and isinstance(args[0], Tup) and len(args[0].items) == 1:
+            return [(p, Custom(OneFrame(args[0].items[0])))]
+        eng.check_untracked(args, kw, "pd.Series", node)
+        return [(p, Opaque(("call", "pd.Series", next(eng.counter))))]
 
     def h_compress(eng, p, args, kw, node):
         x = bl_of(args[0], "compress_data")
@@ -1155,7 +1327,7 @@ def wc_handlers(W):
             raise Unsupported("compress_data of compressed bytes")
         n = fresh_int("len_compressed")
         p.pc += [n >= 0, z3.Implies(W.comp.applied == 0, n == x.n)]
-        return [(p, Custom(BL(n, x.n, [(n, x.n, W.comp.applied)])))]
+        return [(p, Custom(BL(n, x.n, [(n, x.n, W.comp.applied)], leaves=list(x.leaves))))]      # leaves: its plain constituents
 
     def h_write_thrift(eng, p, args, kw, node):
         if not (isinstance(args[0], Custom) and args[0].h is W.fs):
@@ -1170,7 +1342,7 @@ def wc_handlers(W):
         return [(p, PyI(k))]
 
     return {"_rows_per_page": h_rows_per_page, "range": h_range, "zip": h_zip, "make_definitions": h_make_definitions,
-            "compress_data": h_compress, "write_thrift": h_write_thrift, "getattr": h_getattr, ".upper": h_upper, "bool": h_bool}
+            "compress_data": h_compress, "write_thrift": h_write_thrift, "getattr": h_getattr, ".upper": h_upper, "bool": h_bool, "pd.Series": h_pd_series}
 
 
 def discharge_qf(obligs, timeout):
@@ -1262,22 +1434,33 @@ def same_value(a, b):
 
 
 def join_paths(eng, paths):
-    """control-flow join at the loop head: keep what ALL incoming paths agree on (path-condition conjuncts, variables, memoised
-    opaque facts); a variable on which they differ becomes arbitrary.  Weakening only: sound for every obligation proved afterwards."""
+    """control-flow join at the loop head: path condition = common conjuncts + the disjunction of the paths' remainders; a variable on
+    which the paths differ becomes an if-then-else over those remainders (ints, bools) or a Phi value [(remainder, value)] (anything
+    else: only max / min of the statistics block, which flow into parquet_thrift.Statistics).  Exact, nothing is weakened."""
     first = paths[0]
     j = first.fork()
     ids = [set(c.get_id() for c in q.pc) for q in paths]
-    j.pc = [c for c in first.pc if all(c.get_id() in s for s in ids)]
+    common = [c for c in first.pc if all(c.get_id() in s for s in ids)]
+    cid = set(c.get_id() for c in common)
+    conds = [z3.And(*[c for c in q.pc if c.get_id() not in cid]) if any(c.get_id() not in cid for c in q.pc) else z3.BoolVal(True)
+             for q in paths]
+    j.pc = common + ([z3.Or(*conds)] if len(paths) > 1 else [])
+
+    def ite(vals):
+        r = vals[-1]
+        for c, v in reversed(list(zip(conds, vals))[:-1]):
+            r = z3.If(c, v, r)
+        return r
     env = {}
     for v, val in first.env.items():
         if all(v in q.env and same_value(val, q.env[v]) for q in paths):
             env[v] = val
         elif all(v in q.env and isinstance(q.env[v], PyB) for q in paths):
-            env[v] = PyB(fresh_bool("join_" + v))
+            env[v] = PyB(ite([q.env[v].z for q in paths]))
         elif all(v in q.env and isinstance(q.env[v], PyI) for q in paths):
-            env[v] = PyI(fresh_int("join_" + v))
+            env[v] = PyI(ite([q.env[v].z for q in paths]))
         elif all(v in q.env for q in paths):
-            env[v] = Opaque(f"join_{v}!{next(_cnt)}")
+            env[v] = Custom(Phi([(c, q.env[v]) for c, q in zip(conds, paths)]))
     j.env = env
     j.opq = {k: v for k, v in first.opq.items() if all(k in q.opq and (q.opq[k] is v or same_value(q.opq[k], v) or
                                                                         (z3.is_expr(v) and z3.is_expr(q.opq[k]) and v.eq(q.opq[k])))
@@ -1305,7 +1488,7 @@ def run_write_column(ctx, funcs, timeout, dpv):
         ctx.vacuity["requires_sat"] += 1
     else:
         ctx.engine_error(tag + ": precondition unsatisfiable")
-    data0 = Custom(Series(W, W.zero, W.n))
+    data0 = Custom(W.data0)
     args = [Custom(W.fs), data0, Custom(SElement(W))]
     kw = {"compression": Custom(W.comp), "datapage_version": PyI(dpv, lit=True), "stats": PyB(z3.Bool("stats_requested"))}
     try:
@@ -1372,6 +1555,35 @@ def run_write_column(ctx, funcs, timeout, dpv):
         nc = int_field(eng, q, srec, "null_count") if srec is not None else None
         ob("statistics.null_count_is_missing_cells", F_ if nc is None else nc == NULLS(0, W.n),
            "statistics.null_count == number of missing cells of the whole chunk (sum over ALL pages)")
+        # min / max: exactly the PLAIN encoding of the column's max / min as computed over the whole column
+        BA, CN = z3.Bool("selement.type_is_BYTE_ARRAY"), z3.Bool("selement.converted_type_is_None")
+        present = {}
+        for which in ("max", "min"):
+            val = srec.fields.get(which) if srec is not None else None
+            present[which] = val is not None
+            if val is None:
+                continue
+            gs = []
+            for cond, v in alternatives(val):
+                def is_extreme(x):
+                    return isinstance(x, Custom) and isinstance(x.h, ColExtreme) and x.h.which == which \
+                        and x.h.chain in ((), ("unique",), ("unique", "as_ordered"))
+
+                def is_plain(pr):
+                    return isinstance(pr, tuple) and pr[0] == "encode" and pr[1] == "PLAIN" and is_extreme(pr[2]) and pr[3] is True
+                pr = v.h.prov if isinstance(v, Custom) and isinstance(v.h, BL) else None
+                raw_ok = is_extreme(v)
+                plain_ok = is_plain(pr)
+                bare_ok = isinstance(pr, tuple) and pr[0] == "slice" and pr[1] == 4 and pr[2] is None and is_plain(pr[3])
+                gs.append(z3.Implies(cond, z3.And(z3.Implies(z3.Not(BA), z3.BoolVal(plain_ok)),
+                                                  z3.Implies(z3.And(BA, z3.Not(CN)), z3.BoolVal(bare_ok)),
+                                                  z3.Implies(z3.And(BA, CN), z3.BoolVal(raw_ok)))))
+            ob(f"statistics.{which}_is_plain_encoding_of_column_{which}", z3.And(*gs),
+               f"Statistics.{which} is exactly encode['PLAIN'](one-element frame of the {which} of the WHOLE column data0, selement) - for a "
+               "BYTE_ARRAY column without its 4-byte length prefix, or the value itself when there is no converted type - with no slicing, "
+               "truncation, re-encoding or substitution on the way to the Statistics constructor")
+        ob("statistics.max_and_min_both_present_or_both_absent", z3.BoolVal(present["max"] == present["min"]),
+           "a chunk carries both bounds or none")
         # encodings / encoding_stats
         encs = cmd.get("encodings")
         codes = [enum_code(x, ENC, "Encoding") for x in encs.items] if isinstance(encs, Tup) else None
